@@ -109,3 +109,40 @@ package lalr
 //@     invariant min <= ret && ret <= max && cnt == reuse[ret - min] && (ret - min < @i || (@i == 0 && ret == min))
 //@     invariant forall k in 0..@i :: reuse[k] <= cnt
 //@     invariant forall k in 0..ret - min :: reuse[k] < cnt
+
+// ---- small helpers of the table construction (C01/C03) ----
+
+//@ pred incr(s []int) = forall p in 0..len(s) :: forall q in p+1..len(s) :: s[p] < s[q]
+//@ spec func inSet(s []int, x int) bool = exists j in 0..len(s) :: s[j] == x
+
+// union of two strictly increasing lists: strictly increasing, members exactly those of a or b;
+// the arguments are not modified (the result may be one of them when the other is empty).
+//@ func union
+//@   requires incr(a) && incr(b)
+//@   ensures incr(result)
+//@   ensures forall k in 0..len(result) :: inSet(a, result[k]) || inSet(b, result[k])
+//@   ensures forall k in 0..len(a) :: inSet(result, a[k])
+//@   ensures forall k in 0..len(b) :: inSet(result, b[k])
+//@   loop 1:
+//@     invariant 0 <= i && i <= len(a) && 0 <= j && j <= len(b) && incr(ret) && fresh(ret)
+//@     invariant forall k in 0..len(ret) :: (i < len(a) ==> ret[k] < a[i]) && (j < len(b) ==> ret[k] < b[j])
+//@     invariant forall k in 0..len(ret) :: inSet(a, ret[k]) || inSet(b, ret[k])
+//@     invariant forall k in 0..i :: inSet(ret, a[k])
+//@     invariant forall k in 0..j :: inSet(ret, b[k])
+
+// selectGoto: the index (in pairs) of the (from, to) pair of sym whose from is state, or -1.
+//@ func compiler.selectGoto
+//@   requires c.out != nil && c.out.DefaultEnc != nil && 0 <= sym && sym + 1 < len(c.out.DefaultEnc.Goto)
+//@   requires evenSeg(c.out.DefaultEnc.Goto[sym], c.out.DefaultEnc.Goto[sym+1], len(c.out.DefaultEnc.FromTo))
+//@   requires sortedFrom(c.out.DefaultEnc.FromTo, c.out.DefaultEnc.Goto[sym], c.out.DefaultEnc.Goto[sym+1])
+//@   ensures result == -1 ==> forall p in c.out.DefaultEnc.Goto[sym]..c.out.DefaultEnc.Goto[sym+1] :: p % 2 == 0 ==> c.out.DefaultEnc.FromTo[p] != state
+//@   ensures result != -1 ==> c.out.DefaultEnc.Goto[sym] <= 2*result && 2*result < c.out.DefaultEnc.Goto[sym+1] && c.out.DefaultEnc.FromTo[2*result] == state
+//@   loop 1:
+//@     invariant c.out.DefaultEnc.Goto[sym] <= e && e <= max && e % 2 == 0 && max == c.out.DefaultEnc.Goto[sym+1] && min == c.out.DefaultEnc.Goto[sym]
+//@     invariant forall p in min..e :: p % 2 == 0 ==> c.out.DefaultEnc.FromTo[p] != state
+//@     decreases max - e
+//@   loop 2:
+//@     invariant c.out.DefaultEnc.Goto[sym] <= min && min <= max && max <= c.out.DefaultEnc.Goto[sym+1] && min % 2 == 0 && max % 2 == 0
+//@     invariant forall p in c.out.DefaultEnc.Goto[sym]..min :: p % 2 == 0 ==> c.out.DefaultEnc.FromTo[p] < state
+//@     invariant forall p in max..c.out.DefaultEnc.Goto[sym+1] :: p % 2 == 0 ==> c.out.DefaultEnc.FromTo[p] > state
+//@     decreases max - min
